@@ -6,7 +6,7 @@ from rules.c14 import field_index
 from rules.c10 import fold
 from rules.c03 import sites, closure_ret, defaults, zip_rule_everywhere
 from rules import c06, c14
-from mirq.paths import Paths, Unsupported, variant_of
+from mirq.paths import Paths, Unsupported, variant_of, passes_result, show_fact, UNIT
 
 PRIM = "embedded_graphics::primitives::"
 PS = PRIM + "primitive_style::PrimitiveStyle"
@@ -193,26 +193,48 @@ def via_iterator(prog, rep):
 
 
 def scanline_rect(prog, rep):
+    """R01.4 on path summaries (Scanline's own helpers is_empty / to_rectangle looked through): a non-empty scanline is
+    one fill_solid of Rectangle(x.start, y, x.end - x.start, 1) in the given colour, an empty one draws nothing."""
     SC = PRIM + "common::scanline::Scanline"
     dr = prog.method1(SC, "draw", None)
-    org = Origins(dr)
     xs = ("field", P(1, "self"), field_index(prog, SC, "x"))
     y = ("field", P(1, "self"), field_index(prog, SC, "y"))
-    s = sites(dr, "fill_solid", org)
-    ok = len(s) == 1 and s[0][1][0] == P(2, "target") and s[0][1][2] == P(3, "color")
-    if ok:
-        r = fold(s[0][1][1])
-        w = ("bin", "Sub", ("field", xs, 1), ("field", xs, 0))
-        ok = match(r, ("call", "*Rectangle::new", "_", (("call", "*Point::new", "_", (("field", xs, 0), y)), ("call", "*Size::new", "_", (w, ("const", 1)))))) is not None
-    rep.check(ok, "R01.4", "Scanline::draw", "a scanline must be emitted as fill_solid(Rectangle(x.start, y, x.end - x.start, 1), color); found %s" % (show(s[0][1][1], maxd=6) if s else "?"), at=dr.span, fn=dr.path)
+    P_ = Paths(prog, inline=lambda g: prog.is_new(g) or (g.name in ("is_empty", "to_rectangle") and g.path.startswith(SC)))
+    rect = lambda w: ("call", "*Rectangle::new", "_", (("call", "*Point::new", "_", (("field", xs, 0), y)), ("call", "*Size::new", "_", (w, ("const", 1)))))
+    width = ("bin", "Sub", ("field", xs, 1), ("field", xs, 0))
+    empty = ("call", "*::is_empty", "_", (xs,))
+    bad = []
+    n_draw = 0
+    try:
+        summs = P_.of(dr)
+    except Unsupported as e:
+        summs = []
+        bad.append("cannot summarise Scanline::draw: %s" % e)
+    for sm in summs:
+        fs = sm.facts
+        is_e = [fct[0] == "true" for fct in fs if fct[0] in ("true", "false") and match(fct[1], empty) is not None]
+        cs = [e[1] for e in sm.calls()]
+        if cs:
+            n_draw += 1
+            ok = len(sm.effects) == 1 and cs[0][1].split("::")[-1] == "fill_solid" and cs[0][3][0] == P(2, "target") and cs[0][3][2] == P(3, "color") \
+                and match(fold(cs[0][3][1]), rect(width)) is not None and passes_result(sm, cs[0]) and is_e and not any(is_e)
+            if not ok:
+                bad.append("a path draws %s when %s" % ("; ".join(show(c, maxd=5) for c in cs), "; ".join(show_fact(x) for x in fs) or "always"))
+        else:
+            if not (is_e and all(is_e)) or sm.ret != ("agg", "core::result::Result::Ok", (UNIT,)) or sm.effects:
+                bad.append("nothing is drawn when %s (returns %s)" % ("; ".join(show_fact(x) for x in fs) or "always", show(sm.ret, maxd=3)))
+    rep.check(not bad and n_draw >= 1, "R01.4", "Scanline::draw", "a scanline must be emitted as fill_solid(Rectangle(x.start, y, x.end - x.start, 1), color) iff it is not empty: %s" % "; ".join(sorted(set(bad))[:2]), at=dr.span, fn=dr.path)
     tr = prog.method1(SC, "to_rectangle", None)
-    for lits, ret, _ in decisions(tr):
-        r = fold(strip_refs(ret))
-        m = match(r, ("call", "*Rectangle::new", "_", (("call", "*Point::new", "_", (("field", xs, 0), y)), ("call", "*Size::new", "_", ("?w", ("const", 1))))))
-        ok = m is not None and (m["?w"] == ("const", 0) or match(m["?w"], ("bin", "Sub", ("field", xs, 1), ("field", xs, 0))) is not None)
-        rep.check(ok, "R01.4", "Scanline::to_rectangle", "to_rectangle must be Rectangle(x.start, y, x.end - x.start | 0, 1); found %s" % show(r, maxd=6), at=tr.span, fn=tr.path)
-        if not ok:
-            break
+    bad = []
+    try:
+        for sm in P_.of(tr):
+            is_e = [fct[0] == "true" for fct in sm.facts if fct[0] in ("true", "false") and match(fct[1], empty) is not None]
+            w = ("const", 0) if (is_e and all(is_e)) else width
+            if not is_e or match(fold(sm.ret), rect(w)) is None:
+                bad.append("%s when %s" % (show(fold(sm.ret), maxd=6), "; ".join(show_fact(x) for x in sm.facts) or "always"))
+    except Unsupported as e:
+        bad.append("cannot summarise: %s" % e)
+    rep.check(not bad, "R01.4", "Scanline::to_rectangle", "to_rectangle must be Rectangle(x.start, y, x.end - x.start | 0 when empty, 1); found %s" % "; ".join(bad[:2]), at=tr.span, fn=tr.path)
 
 
 def image_paths(prog, rep):
